@@ -101,7 +101,7 @@ func decodeVals(k string, vals []string, decoded bool) ([][]byte, error) {
 		if isBinKey(k) && !decoded {
 			b, err := wire.DecodeBin(v)
 			if err != nil {
-				return nil, fmt.Errorf("value %q of %s is not base64: %v", clip(v, 40), k, err)
+				return nil, fmt.Errorf("value %+q of %s is not base64: %+q", clip(v, 40), k, err.Error())
 			}
 			out = append(out, b)
 			continue
@@ -126,7 +126,7 @@ func sameVals(a, b [][]byte) bool {
 func showVals(v [][]byte) string {
 	var parts []string
 	for _, b := range v {
-		parts = append(parts, fmt.Sprintf("%q", clip(string(b), 40)))
+		parts = append(parts, fmt.Sprintf("%+q", clip(string(b), 40)))
 	}
 	return "[" + strings.Join(parts, " ") + "]"
 }
@@ -163,10 +163,10 @@ func check14(c *Case, o *Obs, rec Rec) (vs []viol, inconclusive string) {
 		return vs, c.Proto + ": client timed out (" + o.Err + ")"
 	}
 	if !rec.Ran {
-		return vs, fmt.Sprintf("%s: the scripted handler was never invoked (HTTP %d, grpc-status %q %q, body %q)", c.Proto, o.HTTP, o.CodeText, clip(o.Msg, 100), clip(string(o.Body), 100))
+		return vs, fmt.Sprintf("%s: the scripted handler was never invoked (HTTP %d, grpc-status %+q %+q, body %+q)", c.Proto, o.HTTP, o.CodeText, clip(o.Msg, 100), clip(string(o.Body), 100))
 	}
 	if o.Err != "" {
-		add("no-response", gen, fmt.Sprintf("client got no usable response: %s", clip(o.Err, 200)))
+		add("no-response", gen, fmt.Sprintf("client got no usable response: %s", ascii(clip(o.Err, 200))))
 		return vs, ""
 	}
 
@@ -175,7 +175,7 @@ func check14(c *Case, o *Obs, rec Rec) (vs []viol, inconclusive string) {
 			key := strings.ToLower(h.Name)
 			got, ok := rec.MD[key]
 			if !ok {
-				add("incoming-key-missing", nameClass(h.Name)+","+h.valueClass(), fmt.Sprintf("request header %q (%d values) is not in the handler's incoming metadata under %q; keys: %v", h.Name, len(h.Vals), key, sortedKeys(rec.MD)))
+				add("incoming-key-missing", nameClass(h.Name)+","+h.valueClass(), fmt.Sprintf("request header %+q (%d values) is not in the handler's incoming metadata under %+q; keys: %+q", h.Name, len(h.Vals), key, sortedKeys(rec.MD)))
 				continue
 			}
 			gb := make([][]byte, len(got))
@@ -183,7 +183,7 @@ func check14(c *Case, o *Obs, rec Rec) (vs []viol, inconclusive string) {
 				gb[i] = []byte(v)
 			}
 			if !sameVals(gb, h.Vals) {
-				add("incoming-value", h.valueClass(), fmt.Sprintf("request header %q sent as %q reached the handler as %s, want %s", h.Name, h.wire(), showVals(gb), showVals(h.Vals)))
+				add("incoming-value", h.valueClass(), fmt.Sprintf("request header %+q sent as %+q reached the handler as %s, want %s", h.Name, h.wire(), showVals(gb), showVals(h.Vals)))
 			}
 		}
 		return vs, ""
@@ -233,7 +233,7 @@ func check14(c *Case, o *Obs, rec Rec) (vs []viol, inconclusive string) {
 				}
 				if bytes.Equal(raw, f) && reservedIn != "" && !forged {
 					forged = true
-					add("reserved-forged", reservedIn, fmt.Sprintf("handler-supplied value %q for the reserved key %q reached the client", clip(string(f), 40), k))
+					add("reserved-forged", reservedIn, fmt.Sprintf("handler-supplied value %+q for the reserved key %+q reached the client", clip(string(f), 40), k))
 				}
 			}
 		}
@@ -263,18 +263,18 @@ func check14(c *Case, o *Obs, rec Rec) (vs []viol, inconclusive string) {
 			} else if st, why := decodeHTTPStatus(o); st == nil {
 				add("status-changed", statusCls, why)
 			} else if st.GetCode() != int32(sc.Code) || st.GetMessage() != sc.Msg {
-				add("status-changed", statusCls, fmt.Sprintf("error body carries (%d, %q), handler returned (%d, %q)", st.GetCode(), st.GetMessage(), sc.Code, sc.Msg))
+				add("status-changed", statusCls, fmt.Sprintf("error body carries (%d, %+q), handler returned (%d, %+q)", st.GetCode(), st.GetMessage(), sc.Code, sc.Msg))
 			}
 		}
 	default:
 		if !o.HasStatus {
 			add("status-changed", statusCls, fmt.Sprintf("no grpc-status observed (HTTP %d)", o.HTTP))
 		} else if o.Code != uint64(sc.Code) || (sc.Code != 0 && o.Msg != sc.Msg) {
-			add("status-changed", statusCls, fmt.Sprintf("client observed status (%d, %q), handler returned (%d, %q)", o.Code, clip(o.Msg, 80), sc.Code, sc.Msg))
+			add("status-changed", statusCls, fmt.Sprintf("client observed status (%d, %+q), handler returned (%d, %+q)", o.Code, clip(o.Msg, 80), sc.Code, sc.Msg))
 		} else if sc.Code != 0 && len(o.Details.GetDetails()) != 0 {
 			add("status-changed", statusCls, fmt.Sprintf("client observed %d status details, handler attached none", len(o.Details.GetDetails())))
 		} else if o.Details != nil && sc.Code != 0 && (o.Details.GetCode() != int32(sc.Code) || o.Details.GetMessage() != sc.Msg) {
-			add("status-changed", statusCls, fmt.Sprintf("grpc-status-details-bin carries (%d, %q), handler returned (%d, %q)", o.Details.GetCode(), o.Details.GetMessage(), sc.Code, sc.Msg))
+			add("status-changed", statusCls, fmt.Sprintf("grpc-status-details-bin carries (%d, %+q), handler returned (%d, %+q)", o.Details.GetCode(), o.Details.GetMessage(), sc.Code, sc.Msg))
 		} else if o.Replies != rec.Sent {
 			add("replies", statusCls, fmt.Sprintf("client decoded %d replies, handler sent %d", o.Replies, rec.Sent))
 		}
@@ -297,7 +297,7 @@ func check14(c *Case, o *Obs, rec Rec) (vs []viol, inconclusive string) {
 			}
 			vals, ok := view[kv.K]
 			if !ok {
-				add(obsName+"-missing", kc, fmt.Sprintf("%s metadata %q=%s set by the handler did not reach the client; client saw keys %v", obsName, kv.K, showVals(kv.V), sortedKeys(view)))
+				add(obsName+"-missing", kc, fmt.Sprintf("%s metadata %+q=%s set by the handler did not reach the client; client saw keys %+q", obsName, kv.K, showVals(kv.V), sortedKeys(view)))
 				continue
 			}
 			got, err := decodeVals(kv.K, vals, o.BinDecoded)
@@ -306,7 +306,7 @@ func check14(c *Case, o *Obs, rec Rec) (vs []viol, inconclusive string) {
 				continue
 			}
 			if !sameVals(got, kv.V) {
-				add(obsName+"-value", kc+","+kvClass(kv), fmt.Sprintf("%s metadata %q: client saw %s, handler set %s", obsName, kv.K, showVals(got), showVals(kv.V)))
+				add(obsName+"-value", kc+","+kvClass(kv), fmt.Sprintf("%s metadata %+q: client saw %s, handler set %s", obsName, kv.K, showVals(got), showVals(kv.V)))
 			}
 		}
 	}
